@@ -305,6 +305,30 @@ func parseAllHandlers() map[consts.JT808CommandType]service.Handler {
 
 // ---------------------------------------------------------------- jt808: active sends
 
+// activeSendTwice: a caller that keeps one *ActiveMessage and sends it again as soon as the first call has returned (a
+// periodic poll of the same terminal): the second call may start while the timer goroutine of the first, answered, call
+// is still asleep.
+func activeSendTwice(srv *service.GoJT808, tag, key string, id int, body []byte, timeoutMs int) {
+	am := service.NewActiveMessage(key, consts.JT808CommandType(id), body, time.Duration(timeoutMs)*time.Millisecond)
+	for k := 0; k < 2; k++ {
+		t := tag
+		if k == 1 {
+			t = tag + "again"
+		}
+		emit(ev{"event": "active-start", "tag": t})
+		start := time.Now()
+		res := srv.SendActiveMessage(am)
+		e := ev{"event": "active-result", "tag": t, "elapsed_ms": time.Since(start).Milliseconds(), "err": "", "nil": res == nil}
+		if res != nil {
+			v := render(res)
+			e["err"], e["platformSeq"], e["respID"] = v.Err, v.PlatformSeq, v.ID
+			e["isNotExist"] = errors.Is(res.ExtensionFields.Err, service.ErrNotExistKey)
+			e["isOvertime"] = errors.Is(res.ExtensionFields.Err, service.ErrWriteDataOverTime)
+		}
+		emit(e)
+	}
+}
+
 func activeSend(srv *service.GoJT808, tag, key string, id int, body []byte, timeoutMs int) {
 	emit(ev{"event": "active-start", "tag": tag})
 	start := time.Now()
@@ -524,6 +548,12 @@ func main() {
 			case "stats":
 				emit(ev{"event": "stats", "goroutines": runtime.NumGoroutine(), "resnap_checked": resnapChecked.Load(),
 					"resnap_diffs": resnapDiffs.Load(), "resnap_input_diffs": resnapInputDiffs.Load(), "conns": connSeq.Load()})
+			case "sendtwice":
+				if len(f) == 6 {
+					id, _ := strconv.Atoi(f[3])
+					ms, _ := strconv.Atoi(f[5])
+					go activeSendTwice(srv, f[1], f[2], id, nil, ms)
+				}
 			case "send":
 				if err := cmdSend(srv, f); err != nil {
 					emit(ev{"event": "bad-command", "line": strings.TrimSpace(line), "err": err.Error()})
